@@ -182,6 +182,10 @@ func runRealOp(sets [2]mapset.Set, o *linOp) {
 	case "iter":
 		var m uint8
 		for e := range a.Iter() {
+			if o.n > 0 {
+				// a consumer that is not waiting when the next member is ready
+				time.Sleep(time.Duration(o.n) * time.Microsecond)
+			}
 			if v, ok := e.(int); ok && v >= 0 && v < linNV {
 				m |= 1 << uint(v)
 			}
@@ -306,12 +310,36 @@ func linHistories(ps *propSink, count int, seed int64) string {
 				if rng.Intn(4) == 0 {
 					o.v = rng.Intn(4)
 				}
+				if o.kind == "iter" || o.kind == "slice" || o.kind == "str" || o.kind == "clone" {
+					o.n = []int{0, 0, 5, 30, 200}[rng.Intn(5)] // only Iter has a consumer to be slow
+				}
 				if o.kind == "has2" {
 					// a long argument list: the deciding values at its two ends, value 4 in between
 					o.w = rng.Intn(4)
 					o.n = []int{0, 1, 255, 256, 300, 1100, 20000}[rng.Intn(7)]
 				}
 				progs[g] = append(progs[g], o)
+			}
+		}
+		// a reader that takes its time over a set of several members meets a writer that changes two of them
+		for g := range progs {
+			for _, o := range progs[g] {
+				if (o.kind == "iter" || o.kind == "slice" || o.kind == "clone" || o.kind == "str") && rng.Intn(2) == 0 {
+					for v := 0; v < linNV; v++ {
+						if rng.Intn(2) == 0 && init[o.s]>>uint(v)&1 == 0 {
+							sets[o.s].Add(v)
+							init[o.s] |= 1 << uint(v)
+						}
+					}
+					g2 := (g + 1) % ng
+					v1, v2 := rng.Intn(linNV), rng.Intn(linNV)
+					k1, k2 := []string{"rm", "add"}[rng.Intn(2)], []string{"rm", "add"}[rng.Intn(2)]
+					progs[g2] = []linOp{{g: g2, kind: k1, s: o.s, t: o.s, v: v1}, {g: g2, kind: k2, s: o.s, t: o.s, v: v2}}
+					if rng.Intn(2) == 0 {
+						progs[g2] = append(progs[g2], linOp{g: g2, kind: "rm", s: o.s, t: o.s, v: rng.Intn(linNV)})
+					}
+					break
+				}
 			}
 		}
 		// a reader with a long list meets a writer that takes its first value away and puts its last one in
